@@ -28,6 +28,8 @@ func propC17(c *Ctx) {
 		rsa := c.Rule("scanner-agree", "every state function of the validating scanner has, for each of the 256 byte values, the effects and the result of the state function of the same name in encoding/json (abstract interpretation of both over the powerset of byte values; conditions on other state are opaque, named branches)", 30)
 		rta := c.Rule("table-agree", "the character class tables of the encoder (safeSet, htmlSafeSet) equal encoding/json's entry by entry", 2)
 		ruleScannerAgree(c, rsa, rta)
+		rea := c.Rule("escape-agree", "the string writers of the encoder append, for each of the 128 ASCII byte values, the bytes encoding/json's appendString appends (abstract interpretation of the escape block of both)", 2)
+		ruleEscapeAgree(c, rea)
 		rse := c.Rule("strconv-err", "every strconv parsing call of the json package uses its error result: an out-of-range number is reported as encoding/json reports it", 1)
 		ruleStrconvErr(c, rse)
 		rpr := c.Rule("pool-reset", "a value the json package recycles through a sync.Pool is fully reset on every path, the error paths included: the partial output of a failed Marshal never starts the next document", 0)
@@ -621,6 +623,8 @@ func propC02(c *Ctx) {
 		ruleStackIndexPaired(c, rsp)
 		rco := c.Rule("compound-op-agree", "the operator emitted for a compound assignment is the one the token package's spelling table pairs with it (`%=` with `%`): x op= y is x = x op y", 8)
 		ruleCompoundOpAgree(c, rco)
+		rof := c.Rule("operand-forwarded", "the operands of a call instruction (argument count, spread flag) reach every call routine: a call site passes the instruction's byte, forwards its own operand parameter, or has read the operand on every path to the call", 6)
+		ruleOperandForwarded(c, rof)
 		rbc := c.Rule("blank-never-const", "the blank identifier is never made a constant symbol: it can be declared again in the same scope", 2)
 		ruleBlankNeverConst(c, rbc)
 		rfc := c.Rule("free-const", "the symbol of a captured variable inherits the Constant flag: a constant cannot be assigned from inside a function literal", 1)
